@@ -364,7 +364,24 @@ class Check:
             log("  " + what)
         log("%s %s: states=%d traces=%d evaluations=%d violations=%d wall=%.0fs" % (
             self.pid, self.tier, self.states, self.traces, self.evaluations, len(self.violations), wall))
+        if not self.violations and not self.ext_rejections:
+            clean_work(self.pid)
         return 1 if self.violations else 0
+
+
+def clean_work(pid, keep_below=2 << 20):
+    """disk space is limited: after a run without rejections the recorded traces and generated case files
+    (hundreds of MB in the quick tier, tens of GB in the thorough tier) are removed; configurations and TLC
+    outputs stay.  After a rejection everything is kept for the replay."""
+    wd = os.path.join(ROOT, "work", pid)
+    for root, _dirs, files in os.walk(wd):
+        for fn in files:
+            fp = os.path.join(root, fn)
+            try:
+                if os.path.getsize(fp) > keep_below:
+                    os.remove(fp)
+            except OSError:
+                pass
 
 
 def has_ev(line, names):
